@@ -19,6 +19,7 @@ from typing import Type
 from typing import Union
 
 from . import function_extensions
+from ._data import json_equal
 from .exceptions import JSONPathNameError
 from .exceptions import JSONPathSyntaxError
 from .exceptions import JSONPathTypeError
@@ -597,14 +598,8 @@ class JSONPathEnvironment:
         if left is UNDEFINED and right is UNDEFINED:
             return True
 
-        # Remember 1 == True and 0 == False in Python
-        if isinstance(right, bool):
-            left, right = right, left
-
-        if isinstance(left, bool):
-            return isinstance(right, bool) and left == right
-
-        return left == right
+        # Remember 1 == True and 0 == False in Python, at any depth.
+        return json_equal(left, right)
 
     def _lt(self, left: object, right: object) -> bool:
         if isinstance(left, str) and isinstance(right, str):
